@@ -51,9 +51,32 @@ class Boxed(object):
 CLASSES = {"str": str, "boxed": Boxed, "repr_type": type}
 
 
+class PairsSeq(Sequence):
+    """a Sequence subclass with a run of its own: its results in pairs (the last one alone)"""
+
+    def run(self, flow):
+        res = list(super(PairsSeq, self).run(flow))
+        return iter([("pair", res[i:i + 2]) for i in range(0, len(res), 2)])
+
+
+class FalsyRun(object):
+    """an element with a run method that is false as an object (an empty container)"""
+
+    def __len__(self):
+        return 0
+
+    def run(self, flow):
+        for v in flow:
+            yield ("fr", v)
+
+
 def build_ext(r):
     if r[0] == "cls":
         return CLASSES[r[1]]
+    if r[0] == "subseq":
+        return PairsSeq(*[R.build(x) for x in r[1]])
+    if r[0] == "falsyrun":
+        return FalsyRun()
     if r[0] == "call_runnone":
         return CallRunNone(R.FUNCS[r[1]])
     if r[0] == "acc_runnone":
@@ -64,6 +87,9 @@ def build_ext(r):
 def manual_ext(r, flow):
     if r[0] == "cls":
         return map(CLASSES[r[1]], flow)
+    if r[0] in ("subseq", "falsyrun"):
+        # the element's own run method
+        return build_ext(r).run(flow)
     if r[0] == "call_runnone":
         return map(CallRunNone(R.FUNCS[r[1]]), flow)
     if r[0] == "acc_runnone":
@@ -139,7 +165,9 @@ def bracketing(draw, n, depth=2):
 ext_recipe = st.one_of(R.el_recipes(2), R.el_recipes(2), R.el_recipes(1),
                        st.builds(lambda f: ["call_runnone", f], st.sampled_from(sorted(R.FUNCS))),
                        st.just(["acc_runnone"]),
-                       st.builds(lambda c: ["cls", c], st.sampled_from(sorted(CLASSES))))
+                       st.builds(lambda c: ["cls", c], st.sampled_from(sorted(CLASSES))),
+                       st.builds(lambda xs: ["subseq", xs], st.lists(R.el_recipes(0, False, True), max_size=2)),
+                       st.just(["falsyrun"]))
 
 
 @st.composite
@@ -150,6 +178,7 @@ def fold_case(draw):
             "flow_as": draw(st.sampled_from(["list", "iter", "tuple"])),
             "source_first": draw(st.sampled_from(["callable", "iterable", "sourceel", "source", "source"])),
             "inner_tail": draw(st.sampled_from([0, 1, 2, len(els), len(els)])),
+            "ctx_before_head": draw(st.sampled_from([0, 0, 1, 2])),
             "branch_nesting": draw(st.lists(st.integers(0, 3), min_size=4, max_size=4)),
             "calls": draw(st.integers(1, 2))}
 
@@ -183,7 +212,7 @@ def _as_flow(js, how):
 
 
 def _kinds(els):
-    return set(R.kind(r) if r[0] not in ("call_runnone", "acc_runnone", "cls") else r[0] for r in R.flat(els))
+    return set(R.kind(r) if r[0] not in ("call_runnone", "acc_runnone", "cls", "subseq", "falsyrun") else r[0] for r in R.flat(els))
 
 
 def judge_fold(case):
@@ -235,7 +264,10 @@ def judge_fold(case):
                     return Source(inner, *[build_ext(r) for r in els[k_in:]])()
                 src_res = _norm(_drain(mk))
             else:
-                src_res = _norm(_drain(lambda: Source(first, *build_bracketed(els, case["bracket"]))()))
+                # (elements without data - SetContext, StoreContext - may precede the head: they are no part of the flow)
+                import lena.meta
+                noflow = [lena.meta.SetContext("a", 1), lena.meta.StoreContext()][:case.get("ctx_before_head", 0)]
+                src_res = _norm(_drain(lambda: Source(*(noflow + [first] + build_bracketed(els, case["bracket"])))()))
         if src_res != ref:
             raise Violation("source-tail-differs-from-sequence",
                             "Source(first(%s), %s)() = %s, Sequence gives %s" % (
